@@ -6,8 +6,11 @@ counts, distance scaling; targets vector / Point / OrientedPoint / Object of eve
 behind, above, at the window's edge, far, huge; 0-4 occluders built relative to a line of sight)
 are judged by an analytic view volume, exact segment/convex-polytope clipping for point targets,
 conservative certificates for object targets, metamorphic relations (occluder monotonicity,
-irrelevant occluders, rigid motion of the whole configuration), `visibleRegion.containsPoint`, and
-compiled Scenic programs using `can see`, `visible [from]`, `not visible [from]`, `requireVisible`.
+irrelevant occluders, rigid motion of the whole configuration), `visibleRegion.containsPoint`,
+compiled Scenic programs using `can see`, `visible [from]`, `not visible [from]`, `requireVisible`,
+and histories: dynamic simulations in which targets and occluders move while `record (viewer can
+see target)` asks the same viewer object at every step (each step judged like a static cell and
+compared with a fresh evaluation on newly built objects).
 Geometry lives in vf/c17_view.py (numpy only)."""
 
 from __future__ import annotations
@@ -27,7 +30,10 @@ RULE = ("Visibility configurations expanded from Hypothesis-drawn seeds: viewer 
         "visibleDistance x ray parameters, 2-4 targets placed in the viewer's own spherical "
         "coordinates (inside / at the edge of / outside the window, behind, above, far, near, "
         "huge), 0-4 occluders constructed relative to a line of sight (covering, partial, beside, "
-        "behind, free), a rigid motion of everything, and 1-3 statements of a compiled program.  "
+        "behind, free), a rigid motion of everything, 1-3 statements of a compiled program, and for "
+        "20 % (Object viewers) / 50 % (Point, OrientedPoint viewers) of the cases a 3-5 step dynamic "
+        "simulation in which an Object target moves towards another target's place and walls move "
+        "between their covering and beside positions while the viewer is asked at every step.  "
         "Non-trivial = viewer at least 5 from the origin and rotated by at least 20 deg about at "
         "least 2 of its yaw/pitch/roll axes; distinct = SHA-1 of the case.")
 ASSUMPTIONS = [
@@ -39,6 +45,9 @@ ASSUMPTIONS = [
     "inscribed ball of >= 6 nominal ray spacings wholly inside the view volume, every occluder "
     "certified irrelevant => visible; everything else is judged by metamorphic relations only",
     "visibleRegion is documented as an inexact mesh: judged outside a band of 0.02 rad / 2 % distance",
+    "histories: the simulator is scenic.core.simulators.DummySimulation with step() moving each object "
+    "by its own constant `c17step`; positions reported by `record` must equal the harness's own "
+    "arithmetic (else exit 2); a step is compared with freshly built objects only if they are bit-equal",
 ]
 
 SPAN_MIN = 6.0        # inscribed ball must span this many nominal ray spacings for must-be-visible
@@ -374,9 +383,11 @@ SHAPE_SRC = {"box": "BoxShape()", "spheroid": "SpheroidShape()", "cylinder": "Cy
              "ring": "MeshShape(trimesh.creation.annulus(r_min=0.6, r_max=1.0, height=0.6))"}
 
 
-def program_text(W, stmts):
-    """stmts: list of (target index, form, positive: bool)."""
+def program_text(W, stmts, extras=None, tail=()):
+    """stmts: list of (target index, form, positive: bool); extras: object name -> additional
+    specifiers; tail: lines appended after the requirements."""
     spec = {}
+    extras = extras or {}
     reqs = []
     vname = "ego" if W["kind"] == "Object" else "vw"
     for i, form, positive in stmts:
@@ -419,9 +430,9 @@ def program_text(W, stmts):
         return s + (", " + extra if extra else "")
 
     for j, e in enumerate(W["occ"]):
-        lines.append(obj_line(f"o{j}", e, ""))
+        lines.append(obj_line(f"o{j}", e, extras.get(f"o{j}", "")))
     for i, e in enumerate(W["targets"]):
-        extra = spec.get(i, "")
+        extra = ", ".join(x for x in (spec.get(i, ""), extras.get(f"t{i}", "")) if x)
         if e["kind"] == "Object":
             lines.append(obj_line(f"t{i}", e, extra))
         elif e["kind"] == "Point":
@@ -433,6 +444,7 @@ def program_text(W, stmts):
                          f"with pitch {_num(p)}, with roll {_num(r)}, with regionContainedIn everywhere"
                          + (", " + extra if extra else ""))
     lines.extend(reqs)
+    lines.extend(tail)
     return "\n".join(lines) + "\n"
 
 
@@ -660,6 +672,8 @@ def judge(case):
 
     # ---- (f) compiled programs
     _programs(case, W, base, out)
+    # ---- (g) histories: the same viewer asked again and again while the world moves
+    _dynamic(case, W, out)
     return out
 
 
@@ -791,6 +805,226 @@ def _programs(case, W, base, out):
                      source=src, direct=d, form=f)
 
 
+# ---------------------------------------------------------------------------------------------
+# (g) histories: one viewer object asked repeatedly during a dynamic simulation
+# ---------------------------------------------------------------------------------------------
+
+MAX_RAYS_DYN = 3000
+_SWAP = {"cover": "beside", "beside": "cover", "partial": "cover", "behind": "cover"}
+_simcls = []
+
+
+def _simulator():
+    """DummySimulator whose objects move by their own `c17step` property at every time step
+    (objects without the property stay where they are).  Like DummySimulation.step, the new
+    position is assigned to the object and then reported by getProperties."""
+    if not _simcls:
+        from scenic.core.simulators import DummySimulation, DummySimulator
+        from scenic.core.vectors import Vector
+
+        class StepSimulation(DummySimulation):
+            def step(self):
+                for obj in self.objects:
+                    d = getattr(obj, "c17step", None)
+                    if d is not None:
+                        obj.position = obj.position + Vector(*d)
+
+        class StepSimulator(DummySimulator):
+            def createSimulation(self, scene, **kwargs):
+                return StepSimulation(scene, drift=0, **kwargs)
+
+        _simcls.append(StepSimulator)
+    return _simcls[0]()
+
+
+def run_dynamic(src, steps):
+    import random
+
+    import scenic
+
+    random.seed(0)
+    np.random.seed(0)
+    sc = scenic.scenarioFromString(src, mode2D=False)
+    scene, _ = sc.generate(maxIterations=1, verbosity=0)
+    result = _simulator().simulate(scene, maxSteps=steps, maxIterations=1, verbosity=0)
+    if result is None:
+        raise core.HarnessError("C17 dynamic program without requirements was rejected")
+    return result.records
+
+
+def _dynamic(case, W, out):
+    """A compiled program in which Object targets and occluders move by a constant step while
+    `record (viewer can see target)` asks the *same* viewer object at every time step.  Every
+    step is a static configuration of its own: judged by the certificates of the static cells
+    (decisive steps only) and compared with a fresh evaluation on newly built objects at the
+    same positions (the answer must not depend on what was asked before)."""
+    import copy
+
+    dyn = case.get("dyn")
+    if not dyn:
+        return
+    vk = W["kind"]
+    N = int(dyn["steps"])
+    nt = len(W["targets"])
+    objs = [i for i, e in enumerate(W["targets"]) if e["kind"] == "Object"]
+    rec, tstep = [], {}
+    if objs and dyn["move_target"] and nt > 1:
+        i = objs[dyn["t"] % len(objs)]
+        j = (i + 1 + dyn["to"] % (nt - 1)) % nt
+        rec.append(i)
+        tstep[i] = (W["targets"][j]["pos"] - W["targets"][i]["pos"]) / N
+    c2 = copy.deepcopy(case)
+    for o, flag in zip(c2["occluders"], dyn["occ"]):
+        if flag and o["mode"] in _SWAP:
+            o["mode"] = _SWAP[o["mode"]]
+    W2 = derive(c2)
+    ostep = {j: (W2["occ"][j]["pos"] - W["occ"][j]["pos"]) / N for j in range(len(W["occ"]))
+             if case["occluders"][j]["mode"] != c2["occluders"][j]["mode"]}
+    if not tstep and not ostep:
+        out.cls("dyn:nothing-moves")
+        return
+    also = dyn["also"] % nt
+    for j in sorted(ostep):  # prefer the target a moving (and occluding) wall was built for
+        if W["occ"][j]["occluding"]:
+            also = case["occluders"][j]["tgt"] % nt
+            break
+    if also not in rec:
+        rec.append(also)
+
+    def path(p0, d):
+        ps = [np.array(p0, float)]
+        for _ in range(N):
+            ps.append(ps[-1] + d if d is not None else ps[-1])
+        return ps
+
+    tpath = {a: path(W["targets"][a]["pos"], tstep.get(a)) for a in rec}
+    opath = {j: path(e["pos"], ostep.get(j)) for j, e in enumerate(W["occ"])}
+    # cost: drop recorded targets which may need too many rays at some step
+    keep = []
+    for a in rec:
+        te = W["targets"][a]
+        cost = 0
+        if te["kind"] == "Object":
+            for k in range(N + 1):
+                c0 = Config(dict(W, targets=[dict(te, pos=tpath[a][k])], occ=[]))
+                cost = max(cost, _cost(W, c0, 0))
+        if cost > MAX_RAYS_DYN:
+            out.cls("dyn:skipped-cost")
+        else:
+            keep.append(a)
+    rec = keep
+    if not rec or not (ostep or any(a in tstep for a in rec)):
+        out.cls("dyn:nothing-left")
+        return
+
+    vname = "ego" if vk == "Object" else "vw"
+    extras, tail = {}, []
+    for r, a in enumerate(rec):
+        e = W["targets"][a]
+        if a in tstep:
+            extras[f"t{r}"] = f"with c17step {_tup(tstep[a])}"
+        tgt = _tup(e["pos"]) if e["kind"] == "vector" else f"t{r}"
+        tail.append(f"record ({vname} can see {tgt}) as vis{r}")
+        if a in tstep:
+            tail.append(f"record t{r}.position as pos_t{r}")
+    for j in sorted(ostep):
+        extras[f"o{j}"] = f"with c17step {_tup(ostep[j])}"
+        tail.append(f"record o{j}.position as pos_o{j}")
+    src = program_text(dict(W, targets=[W["targets"][a] for a in rec]), [], extras, tail)
+    try:
+        records = run_dynamic(src, N)
+    except core.CaseTimeout:
+        raise
+    except core.HarnessError:
+        raise
+    except Exception as e:
+        out.fail(f"dynamic/{vk}|exception:{core.exc_signature(e)}", source=src, error=repr(e)[:300])
+        return
+    out.cls("history:viewer-reused", f"dyn:viewer:{vk}", f"dyn:steps={N}")
+    if tstep:
+        out.cls("dyn:target-moves")
+    if ostep:
+        out.cls("dyn:occluder-moves")
+
+    # positions the simulation reported, against the harness's own arithmetic
+    exact = [True] * (N + 1)
+    for name, ps in [(f"pos_t{r}", tpath[a]) for r, a in enumerate(rec) if a in tstep] + \
+                    [(f"pos_o{j}", opath[j]) for j in sorted(ostep)]:
+        got = records[name]
+        if len(got) != N + 1:
+            raise core.HarnessError(f"C17 dynamic: {len(got)} records of {name} for {N} steps")
+        for (t, v), p in zip(got, ps):
+            q = np.array([v.x, v.y, v.z], float)
+            if not np.allclose(q, p, rtol=1e-9, atol=1e-9):
+                raise core.HarnessError(f"C17 dynamic: {name} at step {t} is {q}, expected {p}")
+            if not np.array_equal(q, p):
+                exact[t] = False
+
+    for r, a in enumerate(rec):
+        te = W["targets"][a]
+        pointlike = te["kind"] != "Object"
+        tk = "vector-target" if te["kind"] == "vector" else "point-target" if pointlike else "object-target"
+        cell = tk + "/" + vk
+        out.cls(f"dyn:target:{te['kind']}")
+        others = [(e, opath[j]) for j, e in enumerate(W["occ"]) if e["occluding"]]
+        others += [(W["targets"][b], tpath[b]) for b in rec
+                   if b != a and W["targets"][b]["kind"] == "Object" and W["targets"][b]["occluding"]]
+        got = records[f"vis{r}"]
+        if [t for t, _ in got] != list(range(N + 1)):
+            raise core.HarnessError(f"C17 dynamic: record times {[t for t, _ in got]} for {N} steps")
+        obs = [bool(v) for _, v in got]
+        exp, fresh = [], []
+        for k in range(N + 1):
+            cfg = Config(dict(W, targets=[dict(te, pos=tpath[a][k])],
+                              occ=[dict(e, pos=ps[k]) for e, ps in others]))
+            S = frozenset(range(len(cfg.occ)))
+            p = cfg.targets[0]["pos"]
+            if pointlike:
+                exp.append(cfg.point_expect(p, S))
+            else:
+                d = float(np.linalg.norm(p - cfg.cam))
+                exp.append(cfg.object_expect(0, S, g.ray_spacing(W["ray"], W["h"], W["v"], d)))
+            out.cls("dyn:step:" + exp[-1][1])
+            f = None
+            if exact[k]:
+                try:
+                    f = cfg.impl(0, S)
+                except core.CaseTimeout:
+                    raise
+                except Exception:
+                    out.cls("dyn:fresh-raises")
+            else:
+                out.cls("dyn:position-rounding-differs")
+            fresh.append(f)
+        decisive = {e for e, _ in exp if e is not None}
+        if len(decisive) == 2:
+            out.cls("dyn:answer-changes-during-run")
+        if len({f for f in fresh if f is not None}) == 2:
+            out.cls("dyn:fresh-answer-changes-during-run")
+        if len(set(obs)) == 2:
+            out.cls("dyn:observed-answer-changes")
+        frozen = len(set(obs)) == 1 and (len(decisive) == 2 or len({f for f in fresh if f is not None}) == 2)
+        for k in range(N + 1):
+            (e, why), f, o = exp[k], fresh[k], obs[k]
+            detail = dict(source=src, step=k, expected=e, fresh=f, observed=o, history=obs,
+                          why=why, viewer=case["viewer"])
+            word = "reported-visible:" if o else "reported-not-visible:"
+            if e is not None and o != e and f == o:
+                # the static verdict is wrong as well: same cell and symptom as the static part
+                out.fail(f"{cell}|{word}{why}", **detail)
+            elif frozen and ((e is not None and o != e) or (f is not None and o != f)):
+                # one root cause whatever the target and the certificate: one signature per
+                # viewer kind and direction
+                out.fail(f"dynamic/{vk}|{word}answer-frozen-since-first-step", **detail)
+            elif e is not None and o != e:
+                out.fail(f"dynamic:{cell}|{word}{why}", **detail)
+            elif f is not None and o != f:
+                out.fail(f"dynamic:{cell}|{word}fresh-objects-at-the-same-positions-disagree",
+                         **detail)
+            elif e is not None:
+                out.cls("dyn:step-judged")
+
+
 def replay(case):
     return judge(case)
 
@@ -912,8 +1146,15 @@ def gen_case(seed):
     prog = {"stmts": [{"t": rnd.randrange(4), "form": ch(["cansee", "visfrom", "visfrom", "vis", "reqvis"])}
                       for _ in range(rnd.randint(1, 3))],
             "flip": rnd.randrange(3)}
-    return {"viewer": viewer, "targets": targets, "occluders": occluders, "motion": motion,
+    case = {"viewer": viewer, "targets": targets, "occluders": occluders, "motion": motion,
             "sub": rnd.randrange(14), "prog": prog}
+    # (g) drawn last, so that everything above is the same case as before this family existed;
+    # Point / OrientedPoint viewers (not simulated objects) get a history more often
+    if rnd.random() < (0.2 if kind == "Object" else 0.5):
+        case["dyn"] = {"steps": rnd.randint(3, 5), "t": rnd.randrange(12), "to": rnd.randrange(12),
+                       "move_target": rnd.random() < 0.8, "also": rnd.randrange(12),
+                       "occ": [rnd.random() < 0.6 for _ in occluders]}
+    return case
 
 
 def cases(salt=0):
@@ -974,6 +1215,10 @@ def _variants(case):
     if case["viewer"].get("cam") and any(case["viewer"]["cam"]):
         c = copy.deepcopy(case)
         c["viewer"]["cam"] = [0.0, 0.0, 0.0]
+        yield c
+    if case.get("dyn"):
+        c = copy.deepcopy(case)
+        del c["dyn"]
         yield c
 
 
